@@ -33,6 +33,44 @@
 #include <elfutils/libdw.h>
 
 #include "flag_saver.hh"
+#ifdef DWGREP_VERIF
+# include "verif-hooks.hh"
+
+namespace
+{
+  // Canonical form: ranges sorted, non-empty, pairwise disjoint and not
+  // adjacent.
+  struct verif_canonical
+  {
+    coverage const &m_cov;
+    char const *m_where;
+
+    verif_canonical (coverage const &cov, char const *where)
+      : m_cov {cov}, m_where {where}
+    {}
+
+    ~verif_canonical ()
+    {
+      ++dwgrep_verif::get_stats ().coverage_checks;
+      for (size_t i = 0; i < m_cov.size (); ++i)
+	{
+	  cov_range const &r = m_cov.at (i);
+	  if (r.length == 0)
+	    dwgrep_verif::fail ("coverage", "empty range", m_where, i);
+	  if (i > 0)
+	    {
+	      cov_range const &p = m_cov.at (i - 1);
+	      if (p.start + p.length >= r.start
+		  || p.start + p.length < p.start)
+		dwgrep_verif::fail ("coverage",
+				    "ranges unsorted, overlapping or adjacent",
+				    m_where, i);
+	    }
+	}
+    }
+  };
+}
+#endif
 
 coverage::const_iterator
 coverage::find (uint64_t start) const
@@ -68,6 +106,9 @@ coverage::find (uint64_t start)
 void
 coverage::add (uint64_t start, uint64_t length)
 {
+#ifdef DWGREP_VERIF
+  verif_canonical verif_check {*this, "add"};
+#endif
   if (length == 0)
     return;
 
@@ -136,6 +177,9 @@ bool
 coverage::remove (uint64_t start,
 		  uint64_t length)
 {
+#ifdef DWGREP_VERIF
+  verif_canonical verif_check {*this, "remove"};
+#endif
   if (empty () || length == 0)
     return false;
 
